@@ -7,9 +7,15 @@ package nebula
 //     After every step the reference-level projection (items returnable now = the expired list, items
 //     outstanding but not yet returnable = the slots) is compared as sets; Purge results are compared
 //     as "some returnable item" (order of equal elements is mechanism).
+//     The recycled-item cache (bounded freelist, timerCacheMax) is bound by SCALING: in the graph "cache" one model item
+//     stands for a batch of timerCacheMax/CacheMax real items (Add = that many Adds of distinct values, Purge = that
+//     many Purges), so that the model's cache count times the batch size IS the real itemsCached and both bounds of the
+//     freelist (empty: new TimeoutItems; full: TimeoutItems dropped) are reached by the real wheel on the model's edges.
 //  T: seeded random add/advance/purge histories on real wheels of several geometries (incl. gaps of
 //     more than a revolution and the item cache at its limit) are recorded; TLC validates them against
-//     the reference layer only (Trace_TimerWheel.tla).
+//     the reference layer only (Trace_TimerWheel.tla).  Every fourth history contains an unrecorded burst of about
+//     timerCacheMax items (large burst beyond the cache, drain, then single adds): the burst's own items are checked
+//     for exactly-once by the harness, the recorded items around it by TLC.
 
 import (
 	"encoding/json"
@@ -21,9 +27,12 @@ import (
 
 type c33Plan struct {
 	Graphs []struct {
-		File string `json:"file"`
-		Tick int    `json:"tick"`
-		Span int    `json:"span"`
+		File     string `json:"file"`
+		Name     string `json:"name"`
+		Tick     int    `json:"tick"`
+		Span     int    `json:"span"`
+		CacheMax int    `json:"cacheMax"` // > 0: scaled binding of the item cache, one model item = timerCacheMax/CacheMax real items
+		Units    int    `json:"units"`    // number of time units to replay under (0 = all)
 	} `json:"graphs"`
 	Groups []struct {
 		File string `json:"file"`
@@ -82,6 +91,43 @@ func c33Project(w c33Wheel) (expired, pending []int, ok bool) {
 	return expired, pending, true
 }
 
+// projection of a wheel whose values are batches (value = model item + 8*j, j < m): the model items in the expired list and
+// in the slots; bad != "" when a batch is split over both or is not complete (items lost or duplicated)
+func c33ProjectBatch(w c33Wheel, m int) (expired, pending []int, ok bool, bad string) {
+	tw := c33Inner(w)
+	var ce, cp [8]int
+	walk := func(l *TimeoutList[int], c *[8]int) bool {
+		n := 0
+		for it := l.Head; it != nil; it = it.Next {
+			c[it.Item&7]++
+			if n++; n > 1<<22 {
+				return false
+			}
+		}
+		return true
+	}
+	if !walk(tw.expired, &ce) {
+		return nil, nil, false, ""
+	}
+	for _, s := range tw.wheel {
+		if !walk(s, &cp) {
+			return nil, nil, false, ""
+		}
+	}
+	for i := 0; i < 8; i++ {
+		if ce[i] > 0 {
+			expired = append(expired, i)
+		}
+		if cp[i] > 0 {
+			pending = append(pending, i)
+		}
+		if ce[i]+cp[i] != 0 && (ce[i]+cp[i] != m || (ce[i] != 0 && cp[i] != 0)) {
+			bad = fmt.Sprintf("of the %d values of model item %d, %d are returnable and %d outstanding", m, i, ce[i], cp[i])
+		}
+	}
+	return expired, pending, true, bad
+}
+
 func c33Unmarshal(m json.RawMessage, into any) {
 	if err := json.Unmarshal(m, into); err != nil {
 		panic(fmt.Sprintf("verif: cannot decode %s: %v", m, err))
@@ -120,6 +166,9 @@ type c33Res struct {
 	V   int  `json:"v"`
 }
 
+// values of the unrecorded burst items of T histories (recorded items are 1..MaxItem)
+const c33BurstBase = 1 << 20
+
 func TestVerif_C33(t *testing.T) {
 	res := vNewResult()
 	defer res.Write(t)
@@ -144,7 +193,24 @@ func TestVerif_C33(t *testing.T) {
 			c33Unmarshal(s["w"], &mw[i])
 			c33Unmarshal(s["res"], &mres[i])
 		}
-		for _, u := range units {
+		// scaled binding of the item cache: m real items per model item
+		m := 1
+		if g.CacheMax > 0 {
+			m = (timerCacheMax + g.CacheMax - 1) / g.CacheMax
+		}
+		gname := fmt.Sprintf("%d_%d", g.Tick, g.Span)
+		if g.Name != "" {
+			gname = g.Name
+		}
+		gunits := units
+		if g.Units > 0 && g.Units < len(units) {
+			gunits = units[:g.Units]
+		}
+		var outst [8][]bool // outst[i][j]: value i+8*j was added and not yet returned
+		for i := range outst {
+			outst[i] = make([]bool, m)
+		}
+		for _, u := range gunits {
 			for ti, tour := range gr.Tours {
 				var w c33Wheel
 				if u.locking {
@@ -152,66 +218,109 @@ func TestVerif_C33(t *testing.T) {
 				} else {
 					w = NewTimerWheel[int](time.Duration(g.Tick)*u.d, time.Duration(g.Span)*u.d)
 				}
+				for i := range outst {
+					clear(outst[i])
+				}
 				clock := 0
+				class := "" // which path of the item cache the history has been through (from the model's action labels)
 			steps:
 				for si, ei := range tour {
 					e := gr.Edges[ei]
 					res.Hit(e.Act)
 					res.Case(fmt.Sprintf("%s/%s/%d", g.File, u.name, ei))
 					det := map[string]any{"graph": g.File, "unit": u.name, "tour": ti, "step": si, "edge": ei, "tour_edges": tour[:si+1],
-						"tick": g.Tick, "span": g.Span, "clock": clock}
+						"tick": g.Tick, "span": g.Span, "clock": clock, "values_per_model_item": m}
+					act := e.Act
 					switch e.Act {
 					case "Tick":
 						clock += vInt(e.Args[0])
 					case "Advance":
 						w.Advance(base.Add(time.Duration(clock) * u.d))
-					case "Add":
-						w.Add(vInt(e.Args[0]), time.Duration(vInt(e.Args[1]))*u.d)
-					case "Purge":
-						v, has := w.Purge()
+					case "AddNew", "AddRecycled":
+						act = "Add"
+						if g.CacheMax > 0 {
+							if c33Inner(w).itemsCached >= m {
+								res.Hit("R:add-recycled-batch")
+							} else if c33Inner(w).itemsCached == 0 {
+								res.Hit("R:add-new-batch")
+							}
+						}
+						i, to := vInt(e.Args[0]), time.Duration(vInt(e.Args[1]))*u.d
+						for j := 0; j < m; j++ {
+							w.Add(i+8*j, to)
+							outst[i][j] = true
+						}
+					case "PurgeEmpty", "PurgeCache", "PurgeDrop":
+						act = "Purge"
 						want := mres[e.Dst]
 						preExp, _ := mw[e.Src].sets()
-						if has != want.Has {
-							res.Mismatch(fmt.Sprintf("replay:Purge:has:%d_%d", g.Tick, g.Span),
-								fmt.Sprintf("Purge returned has=%v (item %d), specification has=%v (returnable items %v)", has, v, want.Has, preExp), det)
-							break steps
+						if g.CacheMax > 0 && c33Inner(w).itemsCached >= timerCacheMax {
+							res.Hit("R:purge-cache-full")
+							if len(preExp) == 1 {
+								res.Hit("R:purge-cache-full-last")
+							}
 						}
-						if has {
+						if e.Act == "PurgeDrop" && g.CacheMax > 0 {
+							class = ":after-purge-with-full-cache"
+						}
+						det["cache_path"] = e.Act
+						differs := false
+						for j := 0; j < m; j++ {
+							v, has := w.Purge()
+							if has != want.Has {
+								res.Mismatch(fmt.Sprintf("replay:Purge:has:%s%s", gname, class),
+									fmt.Sprintf("Purge call %d of %d for one model Purge returned has=%v (value %d), specification has=%v (returnable items %v)",
+										j+1, m, has, v, want.Has, preExp), det)
+								break steps
+							}
+							if !has {
+								break
+							}
+							it, k := v&7, v>>3
 							in := false
 							for _, x := range preExp {
-								in = in || x == v
+								in = in || x == it
 							}
-							if !in {
-								res.Mismatch(fmt.Sprintf("replay:Purge:item:%d_%d", g.Tick, g.Span),
-									fmt.Sprintf("Purge returned item %d which is not returnable (returnable items %v)", v, preExp), det)
+							if !in || k >= m || !outst[it][k] {
+								res.Mismatch(fmt.Sprintf("replay:Purge:item:%s%s", gname, class),
+									fmt.Sprintf("Purge returned value %d (model item %d) which is not returnable or was returned before (returnable items %v)", v, it, preExp), det)
 								break steps
 							}
-							if v != want.V {
-								// another returnable item than the model's head: permitted, but the tour cannot be followed further
-								res.Hit("R:purge-order-differs")
-								break steps
-							}
+							outst[it][k] = false
+							differs = differs || it != want.V
+						}
+						if differs {
+							// another returnable item than the model's head: permitted, but the tour cannot be followed further
+							res.Hit("R:purge-order-differs")
+							break steps
 						}
 					default:
 						t.Fatalf("unknown action %s", e.Act)
 					}
-					gotE, gotP, ok := c33Project(w)
+					var gotE, gotP []int
+					var ok bool
+					bad := ""
+					if m == 1 {
+						gotE, gotP, ok = c33Project(w)
+					} else {
+						gotE, gotP, ok, bad = c33ProjectBatch(w, m)
+					}
 					wantE, wantP := mw[e.Dst].sets()
 					if !ok {
-						res.Mismatch(fmt.Sprintf("replay:corrupt-list:%d_%d", g.Tick, g.Span), "a list of the wheel is cyclic after "+e.Act, det)
+						res.Mismatch(fmt.Sprintf("replay:corrupt-list:%s%s", gname, class), "a list of the wheel is cyclic after "+e.Act, det)
 						break
 					}
-					if !c33Same(gotE, wantE) || !c33Same(gotP, wantP) {
+					if !c33Same(gotE, wantE) || !c33Same(gotP, wantP) || bad != "" {
 						what := "early"
 						if len(gotE) < len(wantE) {
 							what = "late"
 						}
-						if len(gotE)+len(gotP) != len(wantE)+len(wantP) {
+						if len(gotE)+len(gotP) != len(wantE)+len(wantP) || bad != "" {
 							what = "count"
 						}
-						res.Mismatch(fmt.Sprintf("replay:%s:%s:%d_%d", e.Act, what, g.Tick, g.Span),
-							fmt.Sprintf("after %s at clock %d units: returnable %v outstanding %v, specification returnable %v outstanding %v",
-								e.Act, clock, gotE, gotP, wantE, wantP), det)
+						res.Mismatch(fmt.Sprintf("replay:%s:%s:%s%s", act, what, gname, class),
+							fmt.Sprintf("after %s at clock %d units: returnable %v outstanding %v, specification returnable %v outstanding %v %s",
+								e.Act, clock, gotE, gotP, wantE, wantP, bad), det)
 						break
 					}
 				}
@@ -235,15 +344,28 @@ func TestVerif_C33(t *testing.T) {
 			} else {
 				w = NewTimerWheel[int](time.Duration(g.Tick)*u, time.Duration(g.Span)*u)
 			}
-			if n%4 == 3 {
-				// item cache next to its limit: the next purges fill it and then drop items
-				tw := c33Inner(w)
+			tw := c33Inner(w)
+			// item cache next to its limit: the cache is topped up to (just below) timerCacheMax now and then, as if a burst
+			// elsewhere had returned its TimeoutItems, so that Purge meets a full cache while recorded items are outstanding
+			cacheLimit := n%4 == 3
+			topUp := func() {
 				k := timerCacheMax - rnd.Intn(3)
-				for j := 0; j < k; j++ {
+				for tw.itemsCached < k {
 					tw.itemCache = &TimeoutItem[int]{Next: tw.itemCache}
+					tw.itemsCached++
 				}
-				tw.itemsCached = k
+			}
+			if cacheLimit {
+				topUp()
 				res.Hit("T:cache-limit")
+			}
+			// large burst beyond the cache: at step burstAt about timerCacheMax unrecorded items (values >= c33BurstBase) are added
+			// in one go; from then on every purge drains the expired list; only what concerns recorded items is written to the trace
+			burstAt, burstN := -1, 0
+			var burstOut []bool
+			burstLeft := 0
+			if n%4 == 1 {
+				burstAt = rnd.Intn(plan.Events/2 + 1)
 			}
 			tr.Event(map[string]any{"ev": "reset"})
 			clock := 0
@@ -251,6 +373,41 @@ func TestVerif_C33(t *testing.T) {
 			L := g.Span/g.Tick + 2
 			advanced := false
 			mode := rnd.Intn(4)
+			bad, notedFull := false, false
+			// one Purge; false when nothing came out.  Burst items are accounted here, recorded items by TLC.
+			purge := func() bool {
+				full := tw.itemsCached >= timerCacheMax
+				last := tw.expired.Head != nil && tw.expired.Head.Next == nil
+				v, has := w.Purge()
+				if has && full {
+					if !notedFull {
+						tr.Event(map[string]any{"ev": "Note", "what": "purge-with-full-cache"})
+						notedFull = true
+					}
+					res.Hit("T:purge-cache-full")
+					if last {
+						res.Hit("T:purge-cache-full-last")
+					}
+				}
+				if has && v >= c33BurstBase {
+					k := v - c33BurstBase
+					if k >= burstN || !burstOut[k] {
+						if !bad {
+							res.Mismatch(fmt.Sprintf("burst:returned-twice-or-unknown:%d_%d", g.Tick, g.Span),
+								fmt.Sprintf("Purge returned burst item %d of %d which is not outstanding", k, burstN),
+								map[string]any{"tick": g.Tick, "span": g.Span, "trace": n, "clock": clock})
+						}
+						bad = true
+						return true
+					}
+					burstOut[k] = false
+					burstLeft--
+					return true
+				}
+				tr.Event(map[string]any{"ev": "Purge", "now": clock, "has": has, "v": v})
+				res.Hit("T:Purge")
+				return has
+			}
 			for s := 0; s < plan.Events; s++ {
 				// the clock moves
 				switch r := rnd.Intn(100); {
@@ -264,6 +421,23 @@ func TestVerif_C33(t *testing.T) {
 				default:
 					clock += L*g.Tick + rnd.Intn(2*L*g.Tick+1) // more than a revolution
 					res.Hit("T:revolution")
+				}
+				if cacheLimit && rnd.Intn(6) == 0 {
+					topUp()
+				}
+				if s == burstAt {
+					w.Advance(base.Add(time.Duration(clock) * u))
+					tr.Event(map[string]any{"ev": "Advance", "now": clock})
+					advanced = true
+					burstN = timerCacheMax - 2 + rnd.Intn(6)
+					burstOut = make([]bool, burstN)
+					for k := 0; k < burstN; k++ {
+						w.Add(c33BurstBase+k, time.Duration(rnd.Intn(g.Span+g.Tick+1))*u)
+						burstOut[k] = true
+					}
+					burstLeft = burstN
+					tr.Event(map[string]any{"ev": "Note", "what": "burst"})
+					res.Hit("T:burst")
 				}
 				switch r := rnd.Intn(100); {
 				case r < 35 || !advanced:
@@ -296,11 +470,11 @@ func TestVerif_C33(t *testing.T) {
 					res.Hit("T:Add")
 				default:
 					k := 1 + rnd.Intn(3)
+					if burstN > 0 {
+						k = burstN + plan.MaxItem + 2 // after the burst: drain
+					}
 					for j := 0; j < k; j++ {
-						v, has := w.Purge()
-						tr.Event(map[string]any{"ev": "Purge", "now": clock, "has": has, "v": v})
-						res.Hit("T:Purge")
-						if !has {
+						if !purge() {
 							break
 						}
 					}
@@ -310,12 +484,15 @@ func TestVerif_C33(t *testing.T) {
 			clock += g.Span + 3*g.Tick + rnd.Intn(4*L*g.Tick)
 			w.Advance(base.Add(time.Duration(clock) * u))
 			tr.Event(map[string]any{"ev": "Advance", "now": clock})
-			for j := 0; j <= plan.MaxItem+1; j++ {
-				v, has := w.Purge()
-				tr.Event(map[string]any{"ev": "Purge", "now": clock, "has": has, "v": v})
-				if !has {
+			for j := 0; j <= burstN+plan.MaxItem+1; j++ {
+				if !purge() {
 					break
 				}
+			}
+			if burstLeft != 0 && !bad {
+				res.Mismatch(fmt.Sprintf("burst:lost:%d_%d", g.Tick, g.Span),
+					fmt.Sprintf("%d of %d items of a burst were never returned although the wheel was advanced by more than its span and drained", burstLeft, burstN),
+					map[string]any{"tick": g.Tick, "span": g.Span, "trace": n, "clock": clock})
 			}
 			res.Traces++
 			res.Case(fmt.Sprintf("trace/%d/%d", gi, n))
